@@ -78,6 +78,24 @@ def vary_index(df, k):
     return out
 
 
+def vary_columns(df, k):
+    """The same table with another COLUMN order: Motl(df) accepts any order of the 20 named columns (a dict-built,
+    alphabetically sorted or user-reordered frame), so every operation must address fields by name
+    (k % 3: 0 canonical; 1 alphabetical; 2 rotated and pairwise swapped)."""
+    mode = k % 3
+    cols = list(df.columns)
+    if mode == 0 or len(cols) < 2:
+        return df
+    if mode == 1:
+        order = sorted(cols)
+    else:
+        r = 1 + (k // 3) % (len(cols) - 1)
+        order = cols[r:] + cols[:r]
+        for i in range(0, len(order) - 1, 2):
+            order[i], order[i + 1] = order[i + 1], order[i]
+    return df[order]
+
+
 ID_COLUMNS = ["subtomo_id", "tomo_id", "object_id", "class", "geom2", "geom5"]
 
 
